@@ -360,9 +360,26 @@ def collect_aliases(f):
     return {i: root(i) for i in al}
 
 
+def split_tuple_lets(root):
+    """`let (a, b) = (x, y);` becomes `let a = x; let b = y;` (the initialisers are evaluated in the same order)"""
+    for n in walk(root):
+        if n.get("k") == "block" and any(s_.get("k") == "let" and s_["pat"].get("k") == "ptuple" and "init" in s_ and "els" not in s_ and tail_value(s_["init"]).get("k") == "tuple" for s_ in n["stmts"]):
+            out = []
+            for s_ in n["stmts"]:
+                if s_.get("k") == "let" and s_["pat"].get("k") == "ptuple" and "init" in s_ and "els" not in s_:
+                    t = tail_value(s_["init"])
+                    if t.get("k") == "tuple" and len(t["es"]) == len(s_["pat"]["subs"]) and not s_["pat"].get("rest"):
+                        for sp_, e in zip(s_["pat"]["subs"], t["es"]):
+                            out.append({"k": "let", "pat": sp_, "init": e, "sp": s_.get("sp"), "split": True})
+                        continue
+                out.append(s_)
+            n["stmts"] = out
+
+
 def prepare(f, crate):
     """inlined copy + alias registration (idempotent per function object)"""
     g = inline_helpers(f, crate)
+    split_tuple_lets(g["body"])
     _tree.ALIASES.update(collect_aliases(g))
     for n in walk(g["body"]):
         if n.get("k") == "let" and "init" in n and "els" not in n and n["pat"].get("k") == "pbind" and not n["pat"].get("mut") and "sub" not in n["pat"]:
